@@ -188,3 +188,96 @@ Proof.
   destruct (penc filt) as [|p0 pt] eqn:Ep; [congruence|]. rewrite <- Ep. rewrite pdec_penc, Hf. cbn [negb]. reflexivity.
 Qed.
 Print Assumptions c20_roundtrip.
+
+(* ---------- C20 round trip, extensions included ---------- *)
+Require Import Coq.Strings.String.
+Local Open Scope string_scope.
+Local Open Scope list_scope.
+Definition ext_name (e : ext) : bytes := match e with
+  | Bindname _ => s2b "bindname" | XBindpw _ => s2b "x-bindpw" | Credentials _ => s2b "1.3.6.1.4.1.10094.1.5.1"
+  | SaslMech _ => s2b "1.3.6.1.4.1.10094.1.5.2" | StartTLS => s2b "1.3.6.1.4.1.1466.20037" end.
+Definition ext_val (e : ext) : option bytes := match e with Bindname v | XBindpw v | Credentials v | SaslMech v => Some v | StartTLS => None end.
+(* an extension as RFC 4516 writes it: optional '!', the name or OID, and '=' value with the value percent-encoded *)
+Definition fmt_ext (ce : bool * ext) : bytes :=
+  (if fst ce then ["!"%byte] else []) ++ ext_name (snd ce) ++ match ext_val (snd ce) with Some v => "="%byte :: penc v | None => [] end.
+Definition ext_valid (e : ext) : Prop := match ext_val e with Some v => Utf8.valid v = true | None => True end.
+
+Ltac eval_closed :=
+  repeat match goal with
+  | |- context [beqs ?a ?b] => let x := eval vm_compute in (beqs a b) in change (beqs a b) with x
+  | |- context [ascii_lc_equal ?a ?b] => let x := eval vm_compute in (ascii_lc_equal a b) in change (ascii_lc_equal a b) with x
+  | |- context [beq ?a ?b] => let x := eval vm_compute in (beq a b) in change (beq a b) with x
+  end.
+Lemma do_exts_fmt crit e r acc : ext_valid e -> do_exts (fmt_ext (crit, e) :: r) acc = do_exts r (set_insert e acc).
+Proof.
+  intros Hv. cbn [do_exts]. unfold fmt_ext. cbn [fst snd].
+  destruct e as [v|v|v|v|]; cbn [ext_name ext_val] in *; unfold ext_valid in Hv; cbn [ext_val] in Hv.
+  1-4: rewrite app_assoc;
+       match goal with |- context [splitn_on 2 _ (?a ++ "="%byte :: penc ?vv) []] =>
+         rewrite (splitn_field 0 "="%byte a (penc vv) []) by (destruct crit; reflexivity) end;
+       rewrite splitn_last; cbn [app]; rewrite pdec_penc, Hv; destruct crit; cbn [app negb]; eval_closed; cbv beta iota zeta; eval_closed; reflexivity.
+  rewrite app_nil_r. rewrite (splitn_end 0 "="%byte _ []) by (destruct crit; reflexivity).
+  destruct crit; cbn [app]; eval_closed; cbv beta iota zeta; eval_closed; reflexivity.
+Qed.
+
+Definition fresh_kinds (es : list ext) : Prop := NoDup (map ext_kind es).
+Lemma set_insert_fresh e acc : ~ In (ext_kind e) (map ext_kind acc) -> set_insert e acc = acc ++ [e].
+Proof.
+  intros H. unfold set_insert. destruct (existsb (fun x => (ext_kind x =? ext_kind e)%N) acc) eqn:E; [|reflexivity].
+  exfalso. apply existsb_exists in E as (x & Hin & Hx). apply N.eqb_eq in Hx. apply H. rewrite <- Hx. now apply in_map.
+Qed.
+Lemma do_exts_all ces : forall acc, Forall (fun ce => ext_valid (snd ce)) ces -> NoDup (map ext_kind (acc ++ map snd ces)) ->
+  do_exts (map fmt_ext ces) acc = UOk (acc ++ map snd ces).
+Proof.
+  induction ces as [|[crit e] ces IH]; intros acc Hv Hnd; cbn [map]; [cbn; now rewrite app_nil_r|].
+  apply Forall_cons_iff in Hv as [Hv1 Hv]. cbn [snd] in *. rewrite do_exts_fmt by assumption.
+  rewrite set_insert_fresh.
+  - rewrite IH; [now rewrite <- app_assoc|assumption|now rewrite <- app_assoc].
+  - rewrite map_app in Hnd. cbn [map] in Hnd. apply NoDup_remove_2 in Hnd. intros H. apply Hnd. apply in_or_app. now left.
+Qed.
+
+Lemma fmt_no_comma ce : no_byte ","%byte (fmt_ext ce).
+Proof.
+  destruct ce as [crit e]. unfold fmt_ext, no_byte. cbn [fst snd]. rewrite !forallb_app.
+  assert (H1 : forallb (fun x => negb (beq x ","%byte)) (if crit then ["!"%byte] else []) = true) by (destruct crit; reflexivity).
+  assert (H2 : forallb (fun x => negb (beq x ","%byte)) (ext_name e) = true) by (destruct e; reflexivity).
+  rewrite H1, H2. destruct (ext_val e) as [v|]; [|reflexivity]. cbn [forallb]. change (negb (beq "=" ","))%byte with true. apply (penc_no ","%byte v). now right.
+Qed.
+
+Theorem c20_roundtrip_ext base attrs sc filt ces :
+  Utf8.valid base = true -> Utf8.valid filt = true -> filt <> [] -> attrs <> [] -> Forall attr_ok attrs ->
+  ces <> [] -> Forall (fun ce => ext_valid (snd ce)) ces -> fresh_kinds (map snd ces) ->
+  get_url_params ("/"%byte :: penc base)
+    (Some (join ","%byte attrs ++ "?"%byte :: scope_word sc ++ "?"%byte :: penc filt ++ "?"%byte :: join ","%byte (map fmt_ext ces))) =
+  UOk {| p_base := base; p_attrs := attrs; p_scope := sc; p_filter := filt; p_exts := map snd ces |}.
+Proof.
+  intros Hb Hf Hfn Han Hat Hcn Hcv Hck. unfold get_url_params. change (beq "/" "/")%byte with true. cbn match.
+  rewrite pdec_penc, Hb. cbn [negb].
+  assert (Hq1 : no_byte "?"%byte (join ","%byte attrs)) by (apply no_byte_join; [eapply Forall_impl; [|exact Hat]; intros a (_ & _ & H); exact H|reflexivity]).
+  assert (Hq2 : no_byte "?"%byte (scope_word sc)) by (destruct sc; reflexivity).
+  rewrite splitn_field by exact Hq1. rewrite splitn_field by exact Hq2. rewrite splitn_field by (apply penc_no; now left). rewrite splitn_last.
+  cbn [app nth_error].
+  assert (Hj : join ","%byte attrs <> []).
+  { destruct attrs as [|a l]; [congruence|]. inversion Hat as [|? ? (Hne & _) _]; subst. destruct l; cbn [join]; [exact Hne|]. destruct a; [congruence|discriminate]. }
+  destruct (join ","%byte attrs) as [|j0 jt] eqn:Ej; [congruence|]. rewrite <- Ej.
+  rewrite (split_join ","%byte attrs); [|assumption|eapply Forall_impl; [|exact Hat]; intros a (_ & H & _); exact H].
+  assert (Hs : exists w0 wt, scope_word sc = w0 :: wt) by (destruct sc; eexists; eexists; reflexivity). destruct Hs as (w0 & wt & Ew). rewrite Ew, <- Ew.
+  assert (Hsc : (if beqs (scope_word sc) (s2b "base") then UOk Base else if beqs (scope_word sc) (s2b "one") then UOk OneLevel
+                 else if beqs (scope_word sc) (s2b "sub") then UOk Subtree else UErr EScope) = UOk sc) by (destruct sc; reflexivity).
+  rewrite Hsc.
+  assert (Hpf : penc filt <> []) by (destruct filt as [|c r]; [congruence|]; cbn; destruct (unreserved c); discriminate).
+  destruct (penc filt) as [|p0 pt] eqn:Ep; [congruence|]. rewrite <- Ep. rewrite pdec_penc, Hf. cbn [negb].
+  assert (Hje : join ","%byte (map fmt_ext ces) <> []).
+  { destruct ces as [|[crit e] l]; [congruence|]. cbn [map]. assert (Hne : fmt_ext (crit, e) <> []) by (unfold fmt_ext; cbn [fst snd]; destruct crit, e; discriminate).
+    destruct (map fmt_ext l); cbn [join]; [exact Hne|]. destruct (fmt_ext (crit, e)); [congruence|discriminate]. }
+  destruct (join ","%byte (map fmt_ext ces)) as [|e0 et] eqn:Eje; [congruence|]. rewrite <- Eje.
+  rewrite (split_join ","%byte (map fmt_ext ces)); [|destruct ces; [congruence|discriminate]|apply Forall_forall; intros x Hx; apply in_map_iff in Hx as (ce & <- & _); apply fmt_no_comma].
+  rewrite (do_exts_all ces []); [reflexivity|assumption|exact Hck].
+Qed.
+Example c20_ext_hypotheses_met :
+  let ces := [(true, Bindname (s2b "cn=x,dc=y")); (false, StartTLS); (false, XBindpw (s2b "p w"))] in
+  ces <> [] /\ Forall (fun ce => ext_valid (snd ce)) ces /\ fresh_kinds (map snd ces) /\
+  join ","%byte (map fmt_ext ces) = s2b "!bindname=cn%3dx%2cdc%3dy,1.3.6.1.4.1.1466.20037,x-bindpw=p%20w".
+Proof. cbv zeta. split; [discriminate|]. split; [repeat constructor|]. split; [|vm_compute; reflexivity].
+  unfold fresh_kinds. cbn. repeat constructor; cbn; intuition discriminate. Qed.
+Print Assumptions c20_roundtrip_ext.
